@@ -140,6 +140,7 @@ def generate(R, tier, focus):
             ops.append({'op': 'EVAL', 'test': R.choice(('N', 'CL', 'S', 'M')), 'events': evs,
                         'seed': R.randint(1, 10 ** 6), 'actor': actor})
     return {'engine': 'gridsim', 'region': region, 'cells': cells, 'mags': mags, 'start_ms': start_ms, 'end_ms': end_ms,
+            'aware': R.random() < 0.3,
             'swap_latlon': swap, 'ops': ops, 'tz': R.choice(TZ_CHOICES), 'clock_us': R.randint(0, 4 * 10 ** 15),
             'name': 'simgrid'}
 
@@ -167,8 +168,11 @@ def write_dat(path, scn):
 def load_forecast(path, scn):
     import csep
     from csep.core.forecasts import GriddedForecast
-    st = build.utc(scn['start_ms']).replace(tzinfo=None)
-    en = build.utc(scn['end_ms']).replace(tzinfo=None)
+    st = build.utc(scn['start_ms'])
+    en = build.utc(scn['end_ms'])
+    if not scn.get('aware'):
+        # start / end / test dates are either all naive or all timezone-aware (UTC)
+        st, en = st.replace(tzinfo=None), en.replace(tzinfo=None)
     if scn['region']['kind'] == 'quad':
         from csep.utils import readers
         return GriddedForecast.from_custom(readers.quadtree_ascii_loader, func_args=(path,), start_time=st,
@@ -312,13 +316,13 @@ def _execute(scn, ctx, store, clock, rng):
                 return
             factor['alts'] = [op['v']]
         elif kind == 'SCALE_TO_DATE':
-            t = build.utc(op['t_ms']).replace(tzinfo=None)
+            t = build.utc(op['t_ms']) if scn.get('aware') else build.utc(op['t_ms']).replace(tzinfo=None)
             r = call(fc.scale_to_test_date, t)
             if r[0] != 'ok':
                 ctx.violate('C11', 'exception', 'SCALE_TO_DATE:%s' % r[1], {'op': oi, 'msg': r[2]})
                 return
-            st = build.utc(scn['start_ms']).replace(tzinfo=None)
-            en = build.utc(scn['end_ms']).replace(tzinfo=None)
+            st = build.utc(scn['start_ms']) if scn.get('aware') else build.utc(scn['start_ms']).replace(tzinfo=None)
+            en = build.utc(scn['end_ms']) if scn.get('aware') else build.utc(scn['end_ms']).replace(tzinfo=None)
             if st < t < en:
                 dur = decimal_year(en) - decimal_year(st)
                 frac = (decimal_year(t + datetime.timedelta(1)) - decimal_year(st)) / dur
@@ -343,6 +347,14 @@ def _execute(scn, ctx, store, clock, rng):
             ctx.count('load_other_checked')
             if r[0] == 'ok':
                 call(r[1].scale, 3.0)
+                # the second forecast itself must be what its file says (both objects are checked, alternately)
+                o2 = r[1]
+                d2 = numpy.array(o2.data)
+                want2 = numpy.array([c['rates'] for c in other['cells']], dtype=float) * 3.0
+                if d2.shape != want2.shape or hexf(d2) != hexf(want2) or \
+                        numpy.asarray(o2.magnitudes, dtype=float).tolist() != [float(x) for x in other['mags']['edges']]:
+                    ctx.violate('C11', 'load', 'second-forecast-on-the-same-cells-is-not-its-file', {'op': oi})
+                    return
             got_m = numpy.asarray(fc.magnitudes, dtype=float).tolist()
             if got_m != [float(x) for x in edges]:
                 ctx.violate('C11', 'magnitudes', 'edges-changed-by-loading-another-file', {'op': oi, 'got': got_m, 'want': edges})
